@@ -157,8 +157,12 @@ def DateTime.fromTimespecAndLocal (unixTime nanoseconds : Int) (ltt : LocalTimeT
 
 /-! ### Text form (`format_date_time`); `core::fmt` padding is modelled by `pad`. -/
 
-/-- decimal digits of a natural number, most significant first (`0` ↦ "0") -/
-def natDigits (n : Nat) : List Char := (Nat.toDigits 10 n)
+/-- decimal digits of a natural number, most significant first (`0` ↦ "0"): what `core::fmt` prints
+    for an unsigned integer (modelled, DESIGN §1.4) -/
+def natDigits (n : Nat) : List Char :=
+  if n < 10 then [Nat.digitChar n] else natDigits (n / 10) ++ [Nat.digitChar (n % 10)]
+termination_by n
+decreasing_by omega
 
 /-- `{:0w}` for a non-negative integer: at least `w` digits, zero padded -/
 def pad (w : Nat) (n : Int) : List Char :=
